@@ -210,7 +210,7 @@ Proof.
   assert (Hfaults : faults_of s (use_rs s) = never_fails).
   { unfold faults_of. destruct (use_rs s) eqn:E; [reflexivity|]. destruct Hf as [Hf|Hf]; [discriminate|]. rewrite Hf. reflexivity. }
   pose proof (load_prunes_to_cache_pf (regions_of s (use_rs s)) Hs Hb) as P. cbv zeta in P.
-  cbn [run_op]. rewrite Hfaults.
+  cbn [run_op]. unfold load_into_cache. rewrite Hfaults.
   destruct (load_regions never_fails check_and_put (regions_of s (use_rs s)) []) as [[[st acc] m'] c]. cbn [fst snd] in *.
   destruct P as (P1 & P2 & P3 & _ & P5). subst st acc.
   exists (sort_by_id c), m'. split; [reflexivity|]. split.
